@@ -3,8 +3,12 @@
 //! `scan <c02|c03> gen --seed S --n N [--tier t]` prints input lines
 //!     <id> M=<m> pssm=<b,b,b,b,b/...> seq=<digits 0-4|-> wrap=<w> thr=<bits|d> B=<b|d> arms=<gsa> ks=<k,k,..|->
 //! (f32 values as decimal u32 bit patterns; `thr=d` / `B=d`: the setter is not called,
-//! so that the defaults of `Scanner::new` are used; `wrap` is passed to
-//! `StripedSequence::configure_wrap`, M-1 is what `configure(&pssm)` does).
+//! so that the defaults of `Scanner::new` are used; `wrap` = M-1: `configure(&pssm)`;
+//! `wrap` > M-1: `configure_wrap(wrap)` first -- the sequence was configured for a longer
+//! motif -- then `configure(&pssm)`; `wrap` < M-1: `configure_wrap(wrap)` only).
+//! Optional token `sw=<k>:<thr2|d|=>:<B2|d|=>`: a fresh scanner is advanced by k calls of
+//! next(), then `threshold(thr2)` / `block_size(B2)` are called (`=`: setter not called,
+//! `d` is not allowed) and the scanner is iterated to exhaustion (c02) or asked for max() (c03).
 //!
 //! `scan <c02|c03> run` reads input lines on stdin and prints them followed by
 //!     ` => sc=<bits,..|-|P> @<arm> <obs> @<arm> <obs> ...`
@@ -14,6 +18,8 @@
 //!           X = more hits than cells, the harness stopped iterating)
 //! c03 obs: `max=<k>/<consumed pos+pos..|->/<pos:bits|N|P>;...`
 //!          (fresh scanner, k calls of next() stopping at None, then max())
+//! with `sw=`: c02 `sw=<hits of the k calls|->/<hits after the setters|->/<N|P|X>`,
+//!            c03 `swmax=<consumed pos+pos..|->/<pos:bits|N|P>`
 //! A panic inside `Scanner::new` gives `new=P` instead.
 //!
 //! `scan probe` prints facts about the toolchain the Coq model relies on.
@@ -47,6 +53,8 @@ struct Case {
     b: Option<usize>,
     arms: String,
     ks: Vec<usize>,
+    /// setters called after k calls of next(): (k, new threshold, new block size)
+    sw: Option<(usize, Option<f32>, Option<usize>)>,
 }
 
 fn nuc(x: u8) -> Nucleotide {
@@ -71,6 +79,23 @@ fn build_seq(seq: &[u8], wrap: usize) -> StripedSequence<Dna, U32> {
     striped
 }
 
+/// the sequence of a case: configured through the public API for `pssm`, after having been
+/// configured for a longer motif when `wrap` exceeds what `pssm` needs
+fn build_seq_for(seq: &[u8], wrap: usize, pssm: &ScoringMatrix<Dna>) -> StripedSequence<Dna, U32> {
+    let enc = EncodedSequence::<Dna>::new(seq.iter().map(|&x| nuc(x)).collect());
+    let mut striped: StripedSequence<Dna, U32> = Pipeline::<Dna, _>::generic().stripe(&enc);
+    let m = pssm.len();
+    if m >= 1 && wrap == m - 1 {
+        striped.configure(pssm);
+    } else if m >= 1 && wrap > m - 1 {
+        striped.configure_wrap(wrap);
+        striped.configure(pssm);
+    } else {
+        striped.configure_wrap(wrap);
+    }
+    striped
+}
+
 fn show_case(id: &str, c: &Case) -> String {
     let pssm = c
         .pssm
@@ -83,8 +108,17 @@ fn show_case(id: &str, c: &Case) -> String {
     } else {
         c.seq.iter().map(|x| (b'0' + x) as char).collect()
     };
+    let sw = match &c.sw {
+        None => String::new(),
+        Some((k, t, b)) => format!(
+            " sw={}:{}:{}",
+            k,
+            t.map(|t| t.to_bits().to_string()).unwrap_or_else(|| "=".to_string()),
+            b.map(|b| b.to_string()).unwrap_or_else(|| "=".to_string())
+        ),
+    };
     format!(
-        "{} M={} pssm={} seq={} wrap={} thr={} B={} arms={} ks={}",
+        "{} M={} pssm={} seq={} wrap={} thr={} B={} arms={} ks={}{}",
         id,
         c.pssm.len(),
         if pssm.is_empty() { "-".to_string() } else { pssm },
@@ -97,7 +131,8 @@ fn show_case(id: &str, c: &Case) -> String {
             "-".to_string()
         } else {
             c.ks.iter().map(|k| k.to_string()).collect::<Vec<_>>().join(",")
-        }
+        },
+        sw
     )
 }
 
@@ -122,6 +157,18 @@ fn parse_case(f: &std::collections::HashMap<String, String>) -> Case {
         b: if f["B"] == "d" { None } else { Some(f["B"].parse().unwrap()) },
         arms: f["arms"].clone(),
         ks: if f["ks"] == "-" { vec![] } else { f["ks"].split(',').map(|k| k.parse().unwrap()).collect() },
+        sw: match f.get("sw") {
+            None => None,
+            Some(x) if x == "-" => None,
+            Some(x) => {
+                let p: Vec<&str> = x.split(':').collect();
+                Some((
+                    p[0].parse().unwrap(),
+                    if p[1] == "=" { None } else { Some(f32::from_bits(p[1].parse::<u32>().unwrap())) },
+                    if p[2] == "=" { None } else { Some(p[2].parse().unwrap()) },
+                ))
+            }
+        },
     }
 }
 
@@ -191,7 +238,7 @@ fn brute_scores(pssm: &ScoringMatrix<Dna>, striped: &StripedSequence<Dna, U32>, 
 
 fn run_case(prop: &str, c: &Case) -> String {
     let pssm = build_pssm(&c.pssm);
-    let striped = build_seq(&c.seq, c.wrap);
+    let striped = build_seq_for(&c.seq, c.wrap, &pssm);
     let mut out = String::new();
     match brute_scores(&pssm, &striped, c.seq.len()) {
         None => out.push_str("sc=P"),
@@ -226,6 +273,28 @@ fn run_case(prop: &str, c: &Case) -> String {
                 }
             }
             out.push_str(&format!(" take={}", if takes.is_empty() { "-".to_string() } else { takes.join(";") }));
+            if let Some((k, t2, b2)) = c.sw {
+                let mut s = new_scanner(c, &pssm, &striped).unwrap();
+                let (before, end) = pull(&mut s, k);
+                if end == 'P' {
+                    out.push_str(&format!(" sw={}/-/P", show_hits(&before)));
+                } else {
+                    let set = no_panic(|| {
+                        if let Some(t) = t2 {
+                            s.threshold(t);
+                        }
+                        if let Some(b) = b2 {
+                            s.block_size(b);
+                        }
+                    });
+                    if set.is_none() {
+                        out.push_str(&format!(" sw={}/-/P", show_hits(&before)));
+                    } else {
+                        let (after, end) = pull(&mut s, cells);
+                        out.push_str(&format!(" sw={}/{}/{}", show_hits(&before), show_hits(&after), end));
+                    }
+                }
+            }
         } else {
             let mut items = vec![];
             let mut failed_new = false;
@@ -257,6 +326,32 @@ fn run_case(prop: &str, c: &Case) -> String {
                 out.push_str(" new=P");
             } else {
                 out.push_str(&format!(" max={}", if items.is_empty() { "-".to_string() } else { items.join(";") }));
+                if let Some((k, t2, b2)) = c.sw {
+                    let mut s = new_scanner(c, &pssm, &striped).unwrap();
+                    let (consumed, end) = pull(&mut s, k);
+                    let cons = if consumed.is_empty() {
+                        "-".to_string()
+                    } else {
+                        consumed.iter().map(|h| h.position().to_string()).collect::<Vec<_>>().join("+")
+                    };
+                    if end == 'P' {
+                        out.push_str(&format!(" swmax={}/P", cons));
+                    } else {
+                        match no_panic(move || {
+                            if let Some(t) = t2 {
+                                s.threshold(t);
+                            }
+                            if let Some(b) = b2 {
+                                s.block_size(b);
+                            }
+                            s.max()
+                        }) {
+                            None => out.push_str(&format!(" swmax={}/P", cons)),
+                            Some(None) => out.push_str(&format!(" swmax={}/N", cons)),
+                            Some(Some(h)) => out.push_str(&format!(" swmax={}/{}:{}", cons, h.position(), h.score().to_bits())),
+                        }
+                    }
+                }
             }
         }
     }
@@ -398,17 +493,48 @@ fn gen_matrix(rng: &mut Rng, m: usize) -> Vec<[f32; 5]> {
         }
     }
     // wildcard column
-    let w = rng.below(20);
+    let w = rng.below(22);
+    let wconst = 0.25 * (rng.range(-20, 20) as f32);
     for r in rows.iter_mut() {
         r[4] = if w < 14 {
             f32::NEG_INFINITY
         } else if w < 17 {
             0.0
+        } else if w < 20 {
+            wconst
         } else {
-            0.25 * (rng.range(-20, 20) as f32)
+            // per-row values; in some rows N outweighs the best regular base, so that a window
+            // containing N can score above ScoringMatrix::max_score() (byte cells saturate)
+            let best = r[..4].iter().cloned().fold(f32::NEG_INFINITY, f32::max);
+            match rng.below(4) {
+                0 => f32::NEG_INFINITY,
+                1 => best - 0.25 * (rng.below(8) as f32),
+                _ => best + 0.25 * (1 + rng.below(12)) as f32,
+            }
         };
     }
     rows
+}
+
+/// the float `d` steps above (d > 0) or below (d < 0) a finite float
+fn ulp_step(x: f32, d: i32) -> f32 {
+    let mut y = x;
+    for _ in 0..d.abs() {
+        let b = y.to_bits();
+        y = if d > 0 {
+            if y == 0.0 { f32::from_bits(1) } else if y > 0.0 { f32::from_bits(b + 1) } else { f32::from_bits(b - 1) }
+        } else if y == 0.0 {
+            f32::from_bits(0x8000_0001)
+        } else if y > 0.0 {
+            f32::from_bits(b - 1)
+        } else {
+            f32::from_bits(b + 1)
+        };
+        if !y.is_finite() {
+            return x;
+        }
+    }
+    y
 }
 
 fn best_word(pssm: &[[f32; 5]]) -> Vec<u8> {
@@ -434,18 +560,46 @@ fn gen_case(rng: &mut Rng, prop: &str, tier: &str) -> Case {
     } else {
         7 + rng.below(6) as usize
     };
-    let pssm = gen_matrix(rng, m);
+    // wide motifs (the byte scores saturate, the rounding slack of the pre-filter exceeds a byte,
+    // the wrap rows outnumber the sequence rows): a few per run, with few positions each because
+    // the extracted model scores in unary numbers / software floats
+    let wide = rng.chance(if thorough { 3 } else { 2 }, 100);
+    let m: usize = if wide {
+        if thorough && rng.chance(1, 4) { 300 + rng.below(1701) as usize } else { 100 + rng.below(200) as usize }
+    } else {
+        m
+    };
+    let mut pssm = gen_matrix(rng, m);
+    if wide {
+        // stay inside the domain of the end-to-end theorems (coq/disc's conditioning predicate)
+        let mut tries = 0;
+        while tries < 8 && !(pssm.iter().all(|r| r[..4].iter().all(|x| x.is_finite())) && comfortably_conditioned(&pssm)) {
+            pssm = gen_matrix(rng, m);
+            tries += 1;
+        }
+    }
     // block size
     let bsel = rng.below(100);
     let big = if thorough { 10 } else { 3 };
     let b: usize = if bsel < big {
         256
+    } else if bsel < big + 12 {
+        *rng.pick(&[4usize, 5, 6, 9, 12, 32, 33, 40])
     } else {
         *rng.pick(&[1usize, 2, 3, 7, 16])
     };
     // sequence length
     let shape = rng.below(10);
-    let l: usize = if shape < 1 {
+    // spare: more wrap rows than the motif needs, with a last block that is not full (a block end
+    // that is not clipped to the sequence rows then reads wrap rows without leaving the matrix)
+    let spare = !wide && b >= 2 && rng.chance(1, 8);
+    let l: usize = if wide {
+        m + rng.below(if m > 600 { 40 } else { 90 }) as usize - if rng.chance(1, 10) { 1 + rng.below(3) as usize } else { 0 }
+    } else if spare {
+        let k = rng.below(if b >= 16 { 2 } else { 5 }) as usize;
+        let r = k * b + 1 + rng.below(b as u64 - 1) as usize;
+        (r - 1) * C + 1 + rng.below(C as u64) as usize
+    } else if shape < 1 {
         let any = rng.below(m as u64 + 3) as usize;
         *rng.pick(&[0usize, 1, m.saturating_sub(1), m, m + 1, any])
     } else if shape < 7 {
@@ -479,10 +633,14 @@ fn gen_case(rng: &mut Rng, prop: &str, tier: &str) -> Case {
     }
     // wrap rows
     let wsel = rng.below(100);
-    let wrap = if wsel < 92 || m < 2 {
+    let wrap = if spare {
+        // configured for a longer motif first: enough spare rows for a whole extra block
+        m - 1 + b + rng.below(2 * b as u64 + 3) as usize
+    } else if wsel < 82 || (m < 2 && wsel >= 96) {
         m - 1
     } else if wsel < 96 {
-        m - 1 + 1 + rng.below(5) as usize
+        // configured for a longer motif first (by 1..5 columns, or by much more than the sequence has rows)
+        m - 1 + 1 + if rng.chance(1, 3) { rng.below(40) as usize } else { rng.below(5) as usize }
     } else {
         rng.below((m - 1) as u64) as usize
     };
@@ -496,7 +654,7 @@ fn gen_case(rng: &mut Rng, prop: &str, tier: &str) -> Case {
     // long sequences (default block size) get thresholds near the top in the quick
     // tier: the extracted model works on unary numbers and would need seconds per scan
     let big = l > 3000 && (!thorough || rng.chance(4, 5));
-    let tsel = if big { 45 + rng.below(55) } else { rng.below(100) };
+    let tsel = if big { 45 + rng.below(55) } else { rng.below(108) };
     let thr: Option<f32> = if sorted.is_empty() {
         Some(*rng.pick(&[-1000.0f32, 0.0, 5.5]))
     } else if tsel < 10 {
@@ -529,10 +687,21 @@ fn gen_case(rng: &mut Rng, prop: &str, tier: &str) -> Case {
         Some(f32::INFINITY)
     } else if tsel < 99 {
         Some(f32::NAN)
-    } else {
+    } else if tsel < 100 {
         // just below an attained score
         let s = if big { *sorted.last().unwrap() } else { scores[rng.below(scores.len() as u64) as usize] };
         Some(if s.is_finite() { s - 0.005 } else { 0.0 })
+    } else {
+        // a narrow band around an attained score: 1..3 floats above or below it (often one of the top scores)
+        let s = if finite.is_empty() {
+            0.0
+        } else if rng.chance(1, 2) {
+            finite[finite.len() - 1 - rng.below(finite.len().min(4) as u64) as usize]
+        } else {
+            finite[rng.below(finite.len() as u64) as usize]
+        };
+        let d = 1 + rng.below(3) as i32;
+        Some(ulp_step(s, if rng.chance(1, 2) { d } else { -d }))
     };
     let bopt = if b == 256 && rng.chance(1, 2) { None } else { Some(b) };
     // prefixes
@@ -555,11 +724,49 @@ fn gen_case(rng: &mut Rng, prop: &str, tier: &str) -> Case {
             };
             ks.push(k.min(cap));
         }
+        // the hits of the first one or two blocks: max() is then called with an empty buffer at a
+        // block boundary (k = count), with one hit left in the buffer (count - 1), or one hit into
+        // the next block (count + 1); consumed hits often score above everything that remains
+        let rows = (l + C - 1) / C;
+        if rows > 0 && nq <= 1500 {
+            for nb in 1..=2usize {
+                let cnt = scores.iter().enumerate().filter(|(i, &s)| s >= t && i % rows < nb * b).count();
+                if cnt > 0 && rng.chance(2, 3) {
+                    ks.push(cnt);
+                    if rng.chance(1, 2) {
+                        ks.push(cnt - 1);
+                    }
+                    if rng.chance(1, 3) {
+                        ks.push((cnt + 1).min(cap));
+                    }
+                }
+            }
+        }
         ks.sort();
         ks.dedup();
+        if ks.len() > 8 {
+            ks.truncate(8);
+        }
     }
+    // setters called between calls of next()
+    let sw = if l <= 3000 && rng.chance(1, 14) {
+        let k = match rng.below(3) {
+            0 => 1 + rng.below(3) as usize,
+            _ => rng.below(nq as u64 + 2) as usize,
+        };
+        let t2 = match rng.below(4) {
+            0 => None,
+            1 => Some(if finite.is_empty() { -1.0 } else { finite[rng.below(finite.len() as u64) as usize] }),
+            2 => Some(t - 0.5 - (rng.below(8) as f32)),
+            _ => Some(if finite.is_empty() { 1.0 } else { *finite.last().unwrap() }),
+        };
+        let b2 = if t2.is_none() || rng.chance(1, 2) { Some(*rng.pick(&[1usize, 2, 3, 5, 7, 16, 256])) } else { None };
+        Some((k, t2, b2))
+    } else {
+        None
+    };
     let arms = if l > 6000 { "ga".to_string() } else { "gsa".to_string() };
-    Case { pssm, seq, wrap, thr, b: bopt, arms, ks }
+    Case { pssm, seq, wrap, thr, b: bopt, arms, ks, sw }
 }
 
 fn main() {
